@@ -144,7 +144,7 @@ Section FndsEquiv.
     - cbn [fst snd]. auto.
     - rewrite E1, g_bind_next. cbv beta iota zeta. cbn [fst snd] in *. unfold row. cbn [fst snd].
       set (s1 := fold_left (fun s' j => pair_step cmp pop i j s') (seq (S i) (n - S i)) s) in *.
-      rewrite (Hc1 i Hi). destruct (cnt s1 i =? 0)%Z.
+      rewrite (Hc1 i Hi). rewrite ?(Z.eqb_sym 0 (cnt s1 i)). destruct (cnt s1 i =? 0)%Z.
       + cbn. eexists. split; [reflexivity|]. cbn [fst snd cnt dom frt].
         repeat split; try assumption.
         * rewrite Hf1. apply agr_upd. exact Hf.
@@ -180,13 +180,13 @@ Section FndsEquiv.
     rewrite g_call_ret, Hq, g_get_some. cbv beta iota zeta.
     unfold dec_step. rewrite Hq. cbn [fst snd].
     rewrite g_upd_same, (Hc q Hqn), (Hf q Hqn). change @g_is_none with @is_none.
-    destruct ((cnt s q - 1 =? 0)%Z && is_none (frt s q)).
-    - change 1%Z with (Z.of_nat 1). rewrite (g_modify_z_app _ pre nxt [] fnum 1) by lia. rewrite g_get_some.
-      eexists _, _. split; [reflexivity|]. cbn [fst snd cnt dom frt].
-      repeat split; [apply agr_upd; exact Hc|apply agr_upd; exact Hf|].
-      apply Forall_app. split; [exact Hnx|]. constructor; [exact Hqn|constructor].
-    - eexists _, _. split; [reflexivity|]. cbn [fst snd cnt dom frt].
-      repeat split; [apply agr_upd; exact Hc|exact Hf|exact Hnx].
+    change (Z.of_nat fnum - 1)%Z with (Z.of_nat fnum - Z.of_nat 1)%Z.
+    rewrite ?(g_modify_z_app _ pre nxt [] fnum 1) by lia. rewrite ?g_get_some.
+    rewrite ?(Z.eqb_sym 0 (cnt s q - 1)).
+    destruct (cnt s q - 1 =? 0)%Z; destruct (is_none (frt s q)); cbn [andb];
+      (eexists _, _; split; [reflexivity|]; cbn [fst snd cnt dom frt];
+       repeat split; first [apply agr_upd; assumption | assumption | idtac];
+       try (apply Forall_app; split; [exact Hnx|]; constructor; [exact Hqn|constructor])).
   Qed.
 
   Definition rel2 (d0 : nat -> list nat) (pre : list (list nat))
